@@ -46,6 +46,17 @@ func ngapSNSSAI(sst byte, sd []byte) ngapType.SNSSAI {
 	return s
 }
 
+// guamiPLMN: the PLMN of the AMF's own identifiers.
+func (a *AMF) guamiPLMN() [3]byte {
+	if !a.sc.NGSetup.GUAMIOtherPLMN {
+		return a.plmn
+	}
+	if other := [3]byte{0x99, 0xf9, 0x99}; a.plmn != other {
+		return other
+	}
+	return [3]byte{0x00, 0xf1, 0x10}
+}
+
 func guamiOf(plmn [3]byte, region, set, pointer int) ngapType.GUAMI {
 	return ngapType.GUAMI{
 		PLMNIdentity: plmnOS(plmn),
@@ -85,7 +96,7 @@ func (a *AMF) buildNGSetupResponse() ([]byte, error) {
 	ie.Value.Present = ngapType.NGSetupResponseIEsPresentServedGUAMIList
 	gl := &ngapType.ServedGUAMIList{}
 	for i := 0; i <= c.ExtraGUAMIs; i++ {
-		it := ngapType.ServedGUAMIItem{GUAMI: guamiOf(a.plmn, c.AMFRegion, (c.AMFSet+i)&0x3ff, c.AMFPointer)}
+		it := ngapType.ServedGUAMIItem{GUAMI: guamiOf(a.guamiPLMN(), c.AMFRegion, (c.AMFSet+i)&0x3ff, c.AMFPointer)}
 		if i == 0 && c.BackupAMFName != "" {
 			it.BackupAMFName = &ngapType.AMFName{Value: c.BackupAMFName}
 		}
@@ -223,7 +234,7 @@ func (a *AMF) buildInitialContextSetupRequest(u *ue, nas []byte, opts uint32, se
 	if opts&OptICSUEAMBR != 0 || len(sessions) > 0 {
 		add(ngapType.ProtocolIEIDUEAggregateMaximumBitRate, reject, ngapType.InitialContextSetupRequestIEsPresentUEAggregateMaximumBitRate, func(v *V) { v.UEAggregateMaximumBitRate = ueAMBR(u.ch.AMBRDL, u.ch.AMBRUL) })
 	}
-	g := guamiOf(a.plmn, a.sc.NGSetup.AMFRegion, a.sc.NGSetup.AMFSet, a.sc.NGSetup.AMFPointer)
+	g := guamiOf(a.guamiPLMN(), a.sc.NGSetup.AMFRegion, a.sc.NGSetup.AMFSet, a.sc.NGSetup.AMFPointer)
 	add(ngapType.ProtocolIEIDGUAMI, reject, ngapType.InitialContextSetupRequestIEsPresentGUAMI, func(v *V) { v.GUAMI = &g })
 	if len(sessions) > 0 {
 		add(ngapType.ProtocolIEIDPDUSessionResourceSetupListCxtReq, reject, ngapType.InitialContextSetupRequestIEsPresentPDUSessionResourceSetupListCxtReq, func(v *V) {
